@@ -20,8 +20,9 @@ for diff in sorted(glob.glob(os.path.join(VERIF, "mutation", "patches", f"{pid}_
     name = os.path.basename(diff)[len(pid) + 1:-5]
     tmp = tempfile.mkdtemp(prefix="vf_mut_")
     try:
-        shutil.copytree("/repo/moptipyapps", os.path.join(tmp, "moptipyapps"),
-                        ignore=shutil.ignore_patterns("__pycache__"))
+        for sub in ("moptipyapps", "examples"):
+            shutil.copytree(os.path.join("/repo", sub), os.path.join(tmp, sub),
+                            ignore=shutil.ignore_patterns("__pycache__"))
         r = subprocess.run(["patch", "-p1", "-s", "-i", diff], cwd=tmp, capture_output=True, text=True)
         if r.returncode != 0:
             print(f"{name}: PATCH FAILED {r.stdout} {r.stderr}"); continue
